@@ -366,4 +366,4 @@ func report() {
 	core.Extra("c03/roundtrip", "constructors_hit", len(ctorSeen))
 }
 
-func TestReplay(t *testing.T) { core.Replay(t, valueCheck, focusCheck, abiCheck) }
+func TestReplay(t *testing.T) { core.Replay(t, valueCheck, focusCheck, abiCheck, dnsCheck) }
